@@ -1297,6 +1297,36 @@ def r165(ctx, repo):
                         grew = True
     may_alias = any(isinstance(r_.value, ast.Name) and r_.value.id in cal
                     for r_ in returns_of(scale_f))
+    scope = [scale_f]
+    for c_ in walk(scale_f):
+        if isinstance(c_, ast.Call):
+            nm = last_attr(c_) or ""
+            if nm.startswith("_") and nm != scale_f.name:
+                h_ = repo.func(CORE, nm, missing_ok=True) or repo.func(
+                    CORE, "RTDCBase." + nm, missing_ok=True)
+                if h_ is not None and h_ not in scope:
+                    scope.append(h_)    # extracted part of the transform
+    logs = [c_ for fn_ in scope for c_ in walk(fn_)
+            if isinstance(c_, ast.Call) and (call_name(c_) or "").split(
+                ".")[-1] in ("log", "log10", "log2", "log1p")]
+    if not logs:
+        raise AnalysisError("_apply_scale: log transform not found")
+    narrow = [c_ for c_ in logs if any(
+        kw.arg in ("dtype", "out", "casting", "signature")
+        for kw in c_.keywords) or len(c_.args) > 1]
+    cast = [n_ for fn_ in scope for n_ in walk(fn_)
+            if isinstance(n_, ast.Call)
+            and last_attr(n_) == "astype" and any(
+                t_ in txt(n_) for t_ in ("float32", "float16", "half",
+                                         "single"))]
+    ctx.ob("R16.5", not narrow and not cast,
+           "the log transform is computed in the precision of the data "
+           "(no dtype / out argument, no narrowing cast)" if not narrow
+           and not cast else
+           f"`{short((narrow or cast)[0], 40)}` narrows the log transform: "
+           "very small / large positive values become -inf / inf and are "
+           "treated as invalid events (dropped or replaced)",
+           node=(narrow or cast or logs)[0], label="scale keeps precision")
     for raw in (x[0], y[0]):
         al = {raw}
         changed = True
@@ -1740,8 +1770,8 @@ def run(ctx):
     ctx.rule("R16.5", "get_downsampled_scatter: same selection for data "
              "and mask write-back, unscaled data under the sampler's mask; "
              "every path samples; the mask is a new array; per-axis scale; "
-             "returned data unaltered (aliases through _apply_scale)",
-             minimum=13)
+             "returned data unaltered (aliases through _apply_scale); log "
+             "transform not narrowed", minimum=14)
     ctx.rule("R16.6", "the event-limit block of Filter.update keeps no "
              "state on the instance that a later update reads; the draw does "
              "not depend on instance state; the limit is the last narrowing "
@@ -1917,6 +1947,9 @@ MUTANTS = [
       "        self.config[\"filtering\"].update(\n"
       "            self.hparent.config[\"filtering\"])\n"
       "        # calculation\n"), "R16.6"),
+    ("log transform in single precision (seeded C16_14)", CORE,
+     ("                b = np.log(a)\n",
+      "                b = np.log(a, dtype=np.float32)\n"), "R16.5"),
     ("scatter: y scaled with the x scale", CORE,
      ("        ys = RTDCBase._apply_scale(y, yscale, yax)\n",
       "        ys = RTDCBase._apply_scale(y, xscale, yax)\n", 0), "R16.5"),
